@@ -912,7 +912,8 @@ func (p *Printer) arithmExprRecurse(expr ArithmExpr, compact, spacePlusMinus boo
 		if compact {
 			p.arithmExprRecurse(expr.X, compact, spacePlusMinus)
 			p.w.WriteString(expr.Op.String())
-			p.arithmExprRecurse(expr.Y, compact, false)
+			// "1 - -x" must not become "1--x", nor "x + ++y" become "x+++y".
+			p.arithmExprRecurse(expr.Y, compact, expr.Op == Add || expr.Op == Sub)
 		} else {
 			p.arithmExprRecurse(expr.X, compact, spacePlusMinus)
 			if expr.Op != Comma {
@@ -929,7 +930,7 @@ func (p *Printer) arithmExprRecurse(expr ArithmExpr, compact, spacePlusMinus boo
 		} else {
 			if spacePlusMinus {
 				switch expr.Op {
-				case Plus, Minus:
+				case Plus, Minus, Inc, Dec:
 					p.space()
 				}
 			}
@@ -938,6 +939,14 @@ func (p *Printer) arithmExprRecurse(expr ArithmExpr, compact, spacePlusMinus boo
 				// "!" followed by a word triggers history expansion
 				// in interactive shells; a space prevents that.
 				p.space()
+			}
+			// "- -x" must not become "--x", nor "- --x" become "---x".
+			if inner, _ := expr.X.(*UnaryArithm); inner != nil && !inner.Post &&
+				(expr.Op == Plus || expr.Op == Minus) {
+				switch inner.Op {
+				case Plus, Minus, Inc, Dec:
+					p.space()
+				}
 			}
 			p.arithmExprRecurse(expr.X, compact, false)
 		}
